@@ -482,6 +482,7 @@ func (self *VM) Wait() (coreNum uint, i *value.VmInterrupt) {
 					self.Cores.Lock.Unlock()
 
 					self.Cores.Lock.RLock()
+					self.Cores.Lock.RUnlock()
 
 					return core.Corenum, i
 				}
